@@ -7,7 +7,8 @@ src = json.load(open(os.path.join(root, 'tools', 'manifest_src.json')))
 props = [json.loads(l)['id'] for l in open(os.path.join(root, 'properties.jsonl')) if l.strip()]
 checks = []
 claimed = set()
-for c in src['checks']:
+import glob
+for c in [json.load(open(f)) for f in sorted(glob.glob(os.path.join(root,'tools','manifest.d','*.json')))]:
     pid = c['property_id']
     claimed.add(pid)
     checks.append({
@@ -29,7 +30,7 @@ m = {
     'version': 1,
     'setup_cmd': './tools/setup.sh',
     'hooks': src['hooks'],
-    'engines': src['engines'],
+    'engines': [dict(e, serves_properties=sorted(claimed)) for e in src['engines']],
     'checks': checks,
     'notes': src['notes'],
     'not_applicable': na,
